@@ -4,3 +4,7 @@
 pub(crate) mod spec {
     include!(concat!(env!("VHOST_VERIF_DIR"), "/harness/spec.rs"));
 }
+#[allow(dead_code)]
+pub(crate) mod ghost {
+    include!(concat!(env!("VHOST_VERIF_DIR"), "/harness/ghost.rs"));
+}
